@@ -95,6 +95,10 @@ pub enum FrameOp {
     /// `set(k, v)` with a value of another JSON kind — null, false, zero, empty string / array / object:
     /// the values an implementation might be tempted to use as its own "absent" marker
     SetKind(u8, u8),
+    /// `set_nested("k1", v)`: a path of one segment — creates or overwrites the top-level key
+    SetNestedPlain(u8, i64),
+    /// `set_nested("k2.a.b", v)`: defined only when k2 and k2.a are objects
+    SetNestedDeep(u8, i64),
 }
 
 #[derive(Clone, Debug, Serialize, Deserialize)]
@@ -398,6 +402,68 @@ fn min_height(types: &[Ty], rules: &[BRule], start: &Snapshot, goal: &BAtom) -> 
     Some(None)
 }
 
+/// Height of the shortest *chain* derivation of `goal`: the goal holds on the initial facts (0), or a
+/// rule with ONE condition atom (trivially conjunctive), whose action list does not fail and leaves the
+/// goal's field with a value satisfying the goal, has a condition atom with a chain derivation one
+/// lower. Chains cannot interfere with themselves — every step needs only what the step before it just
+/// established — so this is well defined for every program, state machines (`F == 1 -> F = 2`) included.
+fn chain_height(types: &[Ty], rules: &[BRule], start: &Snapshot, goal: &BAtom) -> Option<usize> {
+    for f in 0..NF as u8 {
+        start.get(&fkey(f))?;
+    }
+    let norm = |a: &BAtom| -> (u8, u8, u8) {
+        let f = a.field % NF as u8;
+        let ty = types[f as usize];
+        (f, a.op % if ty == Ty::Int { 6 } else { 2 }, a.lit % if ty == Ty::Bool { 2 } else { 3 })
+    };
+    let mut h: BTreeMap<(u8, u8, u8), usize> = BTreeMap::new();
+    let mut all: Vec<BAtom> = Vec::new();
+    for f in 0..NF as u8 {
+        for op in 0..6u8 {
+            for lit in 0..3u8 {
+                all.push(BAtom { field: f, op, lit });
+            }
+        }
+    }
+    for a in &all {
+        if atom_holds(types, a, start) == Some(true) {
+            h.insert(norm(a), 0);
+        }
+    }
+    loop {
+        let mut changed = false;
+        for r in rules {
+            let c = match &r.cond {
+                BCond::Atom(c) if !r.fails => c,
+                _ => continue,
+            };
+            let hc = match h.get(&norm(c)) {
+                Some(x) => *x,
+                None => continue,
+            };
+            // the value each assigned field is left with (the last assignment wins)
+            let mut eff: BTreeMap<u8, u8> = BTreeMap::new();
+            for (f, l) in &r.sets {
+                eff.insert(*f % NF as u8, *l);
+            }
+            for (f, l) in eff {
+                let ty = types[f as usize];
+                let v = lit_value(ty, l);
+                for a in all.iter().filter(|a| a.field == f) {
+                    if atom_on(ty, a, &v) && h.get(&norm(a)).map_or(true, |old| hc + 1 < *old) {
+                        h.insert(norm(a), hc + 1);
+                        changed = true;
+                    }
+                }
+            }
+        }
+        if !changed {
+            break;
+        }
+    }
+    h.get(&norm(goal)).cloned()
+}
+
 struct QueryOut {
     provable: bool,
     after: Snapshot,
@@ -506,6 +572,20 @@ fn judge(
                     if h > max_depth {
                         obs.count("probe.derivation_deeper_than_max_depth");
                     }
+                }
+            }
+        }
+    }
+    if prop == "C09" && strategy % 3 == 0 {
+        // complete.dfs, second instance: chain derivations (any program, state machines included)
+        if let Some(h) = chain_height(types, rules, before, goal) {
+            if h >= 2 {
+                obs.count("probe.chain_derivation_of_height_2_or_more");
+            }
+            if h >= 1 && h <= max_depth && !out.provable {
+                let v = Violation::new("C09", "complete.dfs", site, "chain-derivation-not-found", format!("{whose}: `{gt}` has a chain derivation of height {h} (single-condition rules, max_depth {max_depth}) but DFS reported it not provable"), step);
+                if !obs.is_known(&v) {
+                    return Err(v);
                 }
             }
         }
@@ -775,6 +855,9 @@ fn run_search(
         }
     }
     obs.nontrivial = queries >= 1 && rules.len() >= 2;
+    if rules.len() > 8 && queries >= 1 {
+        obs.count("probe.program_of_more_than_8_rules");
+    }
     if queries >= 2 {
         obs.count("probe.history_of_two_or_more_queries");
     }
@@ -790,7 +873,12 @@ fn kind_value(kind: u8) -> Value {
         4 => Value::Number(0.0),
         5 => Value::String(String::new()),
         6 => Value::Array(vec![]),
-        _ => Value::Object(HashMap::new()),
+        _ => {
+            // {"a": {}}: an object whose field `a` is an object again (deep set_nested paths can succeed)
+            let mut o = HashMap::new();
+            o.insert("a".to_string(), Value::Object(HashMap::new()));
+            Value::Object(o)
+        }
     }
 }
 
@@ -828,6 +916,34 @@ fn run_frames(ops: &[FrameOp], obs: &mut Obs) -> Result<(), Violation> {
             FrameOp::Set(k, v) => {
                 facts.set(&key(*k), Value::Integer(*v));
                 model.insert(key(*k), Value::Integer(*v));
+            }
+            FrameOp::SetNestedPlain(k, v) => {
+                let r = facts.set_nested(&key(*k), Value::Integer(*v));
+                if r.is_err() {
+                    return Err(Violation::new("C10", "frames.transactional", site, "set-nested-single-segment-failed", format!("set_nested({}) failed: {r:?}", key(*k)), step));
+                }
+                model.insert(key(*k), Value::Integer(*v));
+                obs.count("probe.set_nested_with_a_single_segment");
+            }
+            FrameOp::SetNestedDeep(k, v) => {
+                let path = format!("{}.a.b", key(*k));
+                let r = facts.set_nested(&path, Value::Integer(*v));
+                let ok = match model.get_mut(&key(*k)) {
+                    Some(Value::Object(o)) => match o.get_mut("a") {
+                        Some(Value::Object(inner)) => {
+                            inner.insert("b".to_string(), Value::Integer(*v));
+                            true
+                        }
+                        _ => false,
+                    },
+                    _ => false,
+                };
+                if ok != r.is_ok() {
+                    return Err(Violation::new("C10", "frames.transactional", site, if ok { "set-nested-on-object-failed" } else { "set-nested-on-non-object-succeeded" }, format!("set_nested({path}) returned {r:?}, the model expects ok = {ok}"), step));
+                }
+                if ok {
+                    obs.count("probe.set_nested_two_levels_deep");
+                }
             }
             FrameOp::SetKind(k, kind) => {
                 let v = kind_value(*kind);
@@ -910,7 +1026,10 @@ fn gen_search(rng: &mut Rng, hash_seed: u64, with_negation: bool) -> BwdTrace {
     // chain mode (half of the Horn programs): rule k concludes field k from earlier fields, and the
     // assigned fields do not hold their value yet, so that real derivations of height 2.. are needed
     let chain = horn && rng.chance(1, 2);
-    let nrules = 1 + rng.usize(8);
+    // one program in twelve has 9-14 rules (more candidates per goal than any other program); its depth
+    // bound is kept small because the search is exponential in it
+    let many_rules = rng.chance(1, 12);
+    let nrules = if many_rules { 9 + rng.usize(6) } else { 1 + rng.usize(8) };
     // Horn-monotone mode: one value per assigned field, atoms on assigned fields are `== that value`
     let assigned_val: Vec<u8> = (0..NF).map(|_| rng.below(3) as u8).collect();
     // which fields rules may assign (the others are static)
@@ -949,6 +1068,31 @@ fn gen_search(rng: &mut Rng, hash_seed: u64, with_negation: bool) -> BwdTrace {
         let fails = rng.chance(1, 10);
         rules.push(BRule { cond, sets, fails });
     }
+    // state-machine programs (a quarter of the non-Horn ones): field 0 is a state that rules move from
+    // value to value (`F.f0 == a -> F.f0 = b`), field 1 an output concluded from a state
+    // (`F.f0 == k -> F.f1 = v`); every condition is a single atom, so chain derivations abound — through
+    // rules that test the very field they assign
+    let machine = !horn && rng.chance(1, 4);
+    let mut machine_goal: Option<BAtom> = None;
+    if machine {
+        let nvals: u8 = if types[0] == Ty::Bool { 2 } else { 3 };
+        let mut m: Vec<BRule> = Vec::new();
+        for _ in 0..2 + rng.usize(3) {
+            let a = rng.below(nvals as u64) as u8;
+            let b = (a + 1 + rng.below(nvals as u64 - 1) as u8) % nvals;
+            m.push(BRule { cond: BCond::Atom(BAtom { field: 0, op: 0, lit: a }), sets: vec![(0, b)], fails: false });
+        }
+        let v = rng.below(3) as u8;
+        for _ in 0..1 + rng.usize(2) {
+            m.push(BRule { cond: BCond::Atom(BAtom { field: 0, op: 0, lit: rng.below(nvals as u64) as u8 }), sets: vec![(1, v)], fails: false });
+        }
+        m.extend(rules.iter().take(rng.usize(3)).cloned());
+        rng.shuffle(&mut m);
+        rules = m;
+        init[0] = 0;
+        init[1] = if types[1] == Ty::Bool { (v % 2) ^ 1 } else { (v + 1) % 3 };
+        machine_goal = Some(BAtom { field: 1, op: 0, lit: v });
+    }
     let ngoals = 1 + rng.usize(3);
     let goals = (0..ngoals)
         .map(|_| {
@@ -959,7 +1103,11 @@ fn gen_search(rng: &mut Rng, hash_seed: u64, with_negation: bool) -> BwdTrace {
                 BAtom { field: f, op: rng.below(6) as u8, lit: rng.below(3) as u8 }
             }
         })
-        .collect();
+        .collect::<Vec<BAtom>>();
+    let goals: Vec<BAtom> = match machine_goal {
+        Some(g) => std::iter::once(g).chain(std::iter::once(BAtom { field: 0, op: 0, lit: rng.below(3) as u8 })).chain(goals).take(3).collect(),
+        None => goals,
+    };
     let attach_rete = rng.chance(1, 5);
     let nops = 1 + rng.usize(6);
     let mut ops = Vec::new();
@@ -992,7 +1140,7 @@ fn gen_search(rng: &mut Rng, hash_seed: u64, with_negation: bool) -> BwdTrace {
         init,
         rules,
         goals,
-        max_depth: *rng.pick(&[0usize, 1, 1, 2, 2, 3, 3, 4, 5, 6]),
+        max_depth: if many_rules { *rng.pick(&[0usize, 1, 1, 2, 2, 3]) } else if machine { *rng.pick(&[1usize, 2, 2, 3, 3, 4]) } else { *rng.pick(&[0usize, 1, 1, 2, 2, 3, 3, 4, 5, 6]) },
         strategy: *rng.pick(&[0u8, 0, 0, 1, 2]),
         max_solutions: *rng.pick(&[1usize, 1, 1, 3]),
         memo: rng.chance(1, 2),
@@ -1007,9 +1155,9 @@ impl World for BwdWorld {
         "bwd"
     }
     fn info(&self, prop: &str) -> WorldInfo {
-        let mut probes = vec!["fault.rule_action_errors_midway", "probe.reconfigured_with_the_same_max_depth", "probe.reconfigured_with_another_max_depth", "probe.alt_hash_seed_query", "probe.returned_facts_differ_between_hash_seeds", "probe.history_of_two_or_more_queries", "probe.caller_changed_a_fact", "probe.same_query_asked_again", "probe.retraction_in_attached_engine"];
+        let mut probes = vec!["fault.rule_action_errors_midway", "probe.reconfigured_with_the_same_max_depth", "probe.reconfigured_with_another_max_depth", "probe.program_of_more_than_8_rules", "probe.alt_hash_seed_query", "probe.returned_facts_differ_between_hash_seeds", "probe.history_of_two_or_more_queries", "probe.caller_changed_a_fact", "probe.same_query_asked_again", "probe.retraction_in_attached_engine"];
         match prop {
-            "C09" => probes.extend(["probe.provable_query", "probe.complete_clause_applicable", "probe.derivation_of_height_2_or_more", "probe.derivation_deeper_than_max_depth"]),
+            "C09" => probes.extend(["probe.provable_query", "probe.complete_clause_applicable", "probe.derivation_of_height_2_or_more", "probe.derivation_deeper_than_max_depth", "probe.chain_derivation_of_height_2_or_more"]),
             "C10" => probes.extend(["probe.unprovable_query", "probe.failed_query_with_derivable_intermediate_facts", "probe.nested_frame_committed", "probe.frame_rolled_back", "probe.flat_dotted_key_written"]),
             "C11" => probes.extend(["probe.negated_query", "probe.fact_retyped_same_rendering"]),
             _ => {}
@@ -1045,7 +1193,7 @@ impl World for BwdWorld {
         if prop == "C10" && rng.chance(1, 3) {
             let n = 2 + rng.usize(9);
             let ops = (0..n)
-                .map(|_| match rng.weighted(&[22, 12, 16, 18, 12, 10, 10, 4, 10]) {
+                .map(|_| match rng.weighted(&[22, 12, 16, 18, 12, 10, 10, 4, 10, 8, 5]) {
                     0 => FrameOp::Begin,
                     1 => FrameOp::Commit,
                     2 => FrameOp::Rollback,
@@ -1054,7 +1202,9 @@ impl World for BwdWorld {
                     5 => FrameOp::Remove(rng.below(3) as u8),
                     6 => FrameOp::SetDotted(rng.below(3) as u8, rng.range(1, 9)),
                     7 => FrameOp::RemoveDotted(rng.below(3) as u8),
-                    _ => FrameOp::SetKind(rng.below(3) as u8, rng.below(8) as u8),
+                    8 => FrameOp::SetKind(rng.below(3) as u8, rng.below(8) as u8),
+                    9 => FrameOp::SetNestedPlain(rng.below(3) as u8, rng.range(1, 9)),
+                    _ => FrameOp::SetNestedDeep(rng.below(3) as u8, rng.range(1, 9)),
                 })
                 .collect();
             return BwdTrace::Frames { hash_seed, ops };
